@@ -26,6 +26,9 @@ RoundUp(jm) == Add(<<jm[1], jm[2] \div 1000>>, 1)
 Nearest(jm) == IF jm[2] % 1000 < 500 THEN RoundDown(jm) ELSE RoundUp(jm)
 NearTie(jm) == LET f == jm[2] % 1000 IN f >= 499 /\ f <= 501
 
-(* |t - jm| in milliseconds, for t within a day of jm *)
-AbsMs(t, jm) == LET d == (t[1] - jm[1]) * 86400000 + t[2] * 1000 - jm[2] IN IF d < 0 THEN -d ELSE d
+(* |t - jm| in milliseconds; saturates at 2*10^9 beyond 20 days (TLC's integers are 32-bit: an answer that is wrong by
+   months must come out as a failed clause, not as an arithmetic overflow of the tool) *)
+AbsMs(t, jm) == LET dd == t[1] - jm[1] IN
+                IF dd > 20 \/ dd < -20 THEN 2000000000
+                ELSE LET d == dd * 86400000 + t[2] * 1000 - jm[2] IN IF d < 0 THEN -d ELSE d
 =============================================================================
